@@ -8,6 +8,9 @@ package websocket
 // VerifMaskGo exposes the portable masking implementation.
 func VerifMaskGo(b []byte, key uint32) uint32 { return maskGo(b, key) }
 
+// VerifMask exposes the masking function the connection code actually calls (the per-platform dispatcher).
+func VerifMask(b []byte, key uint32) uint32 { return mask(b, key) }
+
 // VerifCopts exposes the negotiated permessage-deflate parameters of a connection
 // ("none" when compression was not negotiated, else the two no_context_takeover flags as bits).
 func VerifCopts(c *Conn) string {
